@@ -137,7 +137,12 @@ def run(ctx):
         disp = fb.find_bodies(lambda b, fld=fld: b["kind"] == "AssocFn" and b.get("name") == "fmt" and (b.get("impl_trait_path") or "") == "std::fmt::Display" and (fld + "<") in (b.get("impl_self_ty") or ""))
         if len(disp) == 1:
             names = [mir.callee_path(t) for _, t in mir.calls(disp[0])]
-            if "expression::Express::unparse" in names:
+            flagged = sorted({n for n in names if n and n.startswith("std::fmt::Formatter") and n.rsplit("::", 1)[-1] in (
+                "pad", "pad_integral", "width", "precision", "fill", "align", "alternate", "sign_plus", "sign_minus", "sign_aware_zero_pad", "options")})
+            if flagged:
+                chk.violation("R12.1", "display-flags:%s" % fld, "Display of %s lets the width / precision / fill of the format specification change the printed expression (%s): `{:.3}` truncates it to something that does not parse back" % (
+                    fld, ", ".join(x.rsplit("::", 1)[-1] for x in flagged)), loc(disp[0]["span"]))
+            elif "expression::Express::unparse" in names:
                 chk.ok("R12.1", "Display of %s prints unparse()" % fld, "", loc(disp[0]["span"]))
             else:
                 chk.violation("R12.1", "display:%s" % fld, "Display of %s does not print unparse()" % fld, loc(disp[0]["span"]))
@@ -324,8 +329,114 @@ def run(ctx):
         else:
             chk.violation("R12.3", "visitor:%s" % b["name"], "%s does not return the parse of the visited string unchanged: %s" % (b["name"], [show(p.result)[:100] for p in ps][:3]), loc(b["span"]))
     chk.floor("R12.3", "visitor methods", nv, 2)
+    text_fresh(chk, fb)
 
 
 def _mut_arg(body, op):
     defs = mir.local_defs(body).get(op["place"]["local"], [])
     return len(defs) == 1 and defs[0][0] == "stmt" and defs[0][3]["k"] == "ref" and "Mut" in defs[0][3]["borrow"]
+
+
+# functions that may return a deep expression whose cached text is behind its structure, with the reason why that is harmless
+STALE_OK = {
+    "reset_vars": "only the indices of variable nodes change; the text prints names",
+    "without_latest_unary": "internal to differentiation: the result only enters other expressions as a nested node, and nested nodes are "
+                            "printed from their structure (R12.4), never from their cached text",
+    "lift_nodes": "called by the refreshing function before it re-derives the text (callers are checked)",
+}
+
+
+def text_fresh(chk, fb, RID="R12.5"):
+    """R12.5 (typestate): a function that changes the structure of a deep expression (nodes, binary operators, unary
+    composition) re-derives the cached text on every path before it returns.  unparse()/Display return the cached text, so a
+    stale text is an expression that prints as something else than it computes."""
+    from analysis.callgraph import CallGraph
+    OWNER = "expression::deep::DeepEx"
+    STRUCT = {"nodes", "bin_ops", "unary_op"}
+    chk.rule(RID, "a function that mutates nodes / bin_ops / unary_op of a DeepEx refreshes its cached text (compile, or a write of `text`) on every path to a return; exceptions are listed with reasons")
+
+    def fld(pl, names):
+        return any(pr.get("k") == "field" and pr.get("owner") == OWNER and pr.get("name") in names for pr in (pl or {}).get("proj", []))
+
+    def events(b, refreshers):
+        tr = {}
+        for bi in mir.normal_blocks(b):
+            ev = []
+            blk = b["blocks"][bi]
+            for st in blk["stmts"]:
+                if st["k"] != "assign":
+                    continue
+                if fld(st["place"], {"text"}):
+                    ev.append("F")
+                elif fld(st["place"], STRUCT):
+                    ev.append("S")
+                rv = st["rv"]
+                if rv["k"] == "ref" and rv.get("borrow", "").startswith("Mut") and fld(rv["place"], STRUCT):
+                    ev.append("S")
+            t = blk["term"]
+            if t["k"] == "call":
+                cp = mir.callee_path(t) or ""
+                if cp in refreshers:
+                    ev.append("F")
+                elif fld(t.get("dest"), STRUCT):
+                    ev.append("S")
+            tr[bi] = ev
+        return tr
+
+    def stale_returns(b, refreshers):
+        tr = events(b, refreshers)
+        IN = {bi: False for bi in tr}
+        OUT = {}
+        changed = True
+        while changed:
+            changed = False
+            for bi in sorted(tr):
+                s = IN[bi]
+                for e in tr[bi]:
+                    s = e == "S"
+                OUT[bi] = s
+                for nx in mir.succs(b, bi):
+                    if nx in IN and s and not IN[nx]:
+                        IN[nx] = True
+                        changed = True
+        touched = any("S" in v for v in tr.values())
+        refreshes = any("F" in v for v in tr.values())
+        return touched, refreshes, [bi for bi in tr if b["blocks"][bi]["term"]["k"] == "return" and OUT.get(bi)]
+    # refreshers: fn(&mut DeepEx, ..) that write the text (or call a refresher) and never return stale
+    refreshers = set()
+    while True:
+        new = set()
+        for p, b in fb.bodies.items():
+            if p in refreshers or b["arg_count"] < 1 or not (b["locals"][1]["ty"].startswith("&mut") and "deep::DeepEx<" in b["locals"][1]["ty"]):
+                continue
+            touched, refreshes, stale = stale_returns(b, refreshers)
+            if refreshes and not stale:
+                new.add(p)
+        if not new:
+            break
+        refreshers |= new
+    if not refreshers:
+        chk.violation(RID, "anchor", "no function that re-derives the cached text of a DeepEx found")
+        return
+    cg = CallGraph(fb)
+    n = 0
+    for p, b in sorted(fb.bodies.items()):
+        touched, refreshes, stale = stale_returns(b, refreshers)
+        if not touched:
+            continue
+        n += 1
+        name = re.sub(r"(::\{closure#\d+\})+$", "", p).rsplit("::", 1)[-1]
+        if not stale:
+            chk.ok(RID, "fresh:%s" % name, "text re-derived on every path", loc(b["span"]))
+        elif name in STALE_OK:
+            if name == "lift_nodes":
+                callers = {re.sub(r"(::\{closure#\d+\})+$", "", c) for c in cg.callers_of(p)} - {p}      # it recurses into nested expressions
+                if not callers <= refreshers:
+                    chk.violation(RID, "stale-caller:%s" % name, "%s leaves the text behind the structure and is called from %s, which does not re-derive the text" % (name, sorted(callers - refreshers)), loc(b["span"]))
+                    continue
+            chk.ok(RID, "exception:%s" % name, STALE_OK[name], loc(b["span"]))
+        else:
+            bi = stale[0]
+            chk.violation(RID, "stale:%s" % name, "%s changes the structure of a deep expression and can return without re-deriving its cached text: unparse() / Display / serialisation then print an expression that differs from the one that is evaluated" % p,
+                          loc(b["blocks"][bi]["term"]["span"]))
+    chk.floor(RID, "functions mutating the structure of a DeepEx", n, 5)
